@@ -23,7 +23,7 @@ def spans(node, out=None) -> list:
         return out
     if k == "CODEBLOCK":
         out.append(("codeblock-info", node[1]))
-        out.append(("codeblock-body", node[2]))
+        out.append(("codeblock-body", node[2], node[3] if len(node) > 3 else None))
     elif k == "CODE":
         out.append(("code", _ws(node[1])))
     elif k == "HTML":
